@@ -344,6 +344,8 @@ impl<'a> SiteWalker<'a> {
 fn is_identifier_path(v: &Value) -> bool {
     match ty(v) {
         "Identifier" => true,
+        // `[].slice.call(x)`, `''.concat.call(x)`: handled like a prototype path
+        "ArrayExpression" | "StringLiteral" | "ObjectExpression" => true,
         "MemberExpression" => ident_name(&v["property"]).is_some() && is_identifier_path(&v["object"]),
         _ => false,
     }
